@@ -535,6 +535,19 @@ def gen_portfolio(ch, feats):
             assets.append(dict(type="SimpleContract", name="gas", nodes=["nf"], price="q",
                                min_cap=r(0.0, g), max_cap=r(50.0, g)))
             assets.append(gen_plant(ch, g, "pl", ["n1", "nf"], feats, kind="Plant"))
+        elif ex == "chpml":
+            assets.append(dict(type="SimpleContract", name="heat", nodes=["nh"], price="q", min_cap=r(-3.0, g), max_cap=r(0.0, g)))
+            a_ = gen_plant(ch, g, "chpml", ["n1", "nh"], feats, kind="CHPAsset")
+            a_["type"] = "CHPAsset_with_min_load_costs"
+            a_["min_load_threshhold"] = r(ch.pick("chpml.threshhold", [4.0, 2.0]), g)
+            a_["min_load_costs"] = r(ch.pick("chpml.costs", [1.0, 0.0]), g)
+            assets.append(a_)
+        elif ex == "linked":
+            p1 = dict(type="Plant", name="lp1", nodes=["n1"], price="ec", min_cap=r(1.0, g), max_cap=r(4.0, g), start_costs=2.0, time_already_off=d_(60.0, g))
+            p2 = dict(type="Plant", name="lp2", nodes=["n1"], price="ec", min_cap=r(1.0, g), max_cap=r(3.0, g), time_already_off=d_(60.0, g))
+            assets.append(dict(type="LinkedAsset", name="lnk", nodes=["n1"], portfolio=[p1, p2], asset1_variable=["lp2", "disp", "n1"],
+                               asset2_variable=["lp1", "bool_on", None], asset2_time_already_running=0,
+                               time_back=ch.pick("lnk.time_back", [1, 2]), time_forward=0))
         elif ex == "chp":
             assets.append(dict(type="SimpleContract", name="heat", nodes=["nh"], price="q",
                                min_cap=r(-3.0, g), max_cap=r(0.0, g)))
